@@ -169,7 +169,9 @@ impl Game {
 
         match maybe_chess_move {
             Some(result) => Ok(result.clone()),
-            None => return Err(GameError::InvalidMove),
+            // The book only knows the move history: on a board that did not start from
+            // the standard position its suggestion may not be playable. Search instead.
+            None => self.select_alpha_beta_best_move(),
         }
     }
 
